@@ -40,6 +40,38 @@ class Monitor:
         self.events = []
         self.sites = set()
         self.n = 0
+        self.shadowed = set()
+        self.shadow_n = 0
+
+    HOSTILE = ["DS{r}", "{0}", "100%s", "a{b", "}{"]
+
+    def shadow(self, cls, orig, a, k, code, site):
+        import vtlengine.Exceptions as EX
+        ctx = getattr(EX, "_context", None)
+        holder, attr = (ctx, "dataset_output") if ctx is not None else (EX, "dataset_output")
+        saved = getattr(holder, attr, None)
+        try:
+            for name in self.HOSTILE:
+                setattr(holder, attr, name)
+                obj = cls.__new__(cls)
+                self.shadow_n += 1
+                try:
+                    orig(obj, *a, **k)
+                except Exception as e:  # noqa: BLE001
+                    return ("constructor-fails-when-output-dataset-name-has-format-characters", f"{cls.__name__}({code!r}) at {site} with output dataset {name!r}: {type(e).__name__}: {e}")
+                if cls.__name__ != "InputValidationException" and name not in str(obj.args[0]):
+                    return ("output-dataset-name-not-rendered-verbatim", f"{cls.__name__}({code!r}) at {site} with output dataset {name!r}: {obj.args[0]!r}")
+            setattr(holder, attr, saved)
+            hk = {x: (self.HOSTILE[0] if isinstance(y, str) and x not in ("code", "comp_code") else y) for x, y in k.items()}
+            obj = cls.__new__(cls)
+            self.shadow_n += 1
+            try:
+                orig(obj, *a, **hk)
+            except Exception as e:  # noqa: BLE001
+                return ("constructor-fails-when-a-placeholder-value-has-format-characters", f"{cls.__name__}({code!r}) at {site}: {type(e).__name__}: {e}")
+        finally:
+            setattr(holder, attr, saved)
+        return None
 
     def install(self):
         import sys
@@ -77,6 +109,11 @@ class Monitor:
                         problem = ("empty-message", f"{cls.__name__}({code!r}) at {site}")
                     elif len(self_.args) < 2 or self_.args[1] != code:
                         problem = ("code-not-carried", f"{cls.__name__}({code!r}) at {site}: args={self_.args[1:]}")
+                if problem is None and (cls.__name__, code, site) not in mon.shadowed:
+                    # shadow constructions of the same error under hostile context: an output-dataset name and
+                    # placeholder values that contain format metacharacters must still render
+                    mon.shadowed.add((cls.__name__, code, site))
+                    problem = mon.shadow(cls, orig, a, k, code, site)
                 mon.events.append((cls.__name__, code, site, problem))
             cls.__init__ = init
 
@@ -109,6 +146,65 @@ def scan_sites():
                     if rx.search(line) and not line.lstrip().startswith(("class ", "#", "from ", "import ")) and "except" not in line and "isinstance" not in line:
                         n += 1
     return n
+
+
+def site_signatures(emit):
+    """Every constructor call site of the four classes found in the source (ast): the real constructor is executed with the
+    site's literal code and the site's keyword names (dummy values). Sites with a computed code or **kwargs are counted, not judged."""
+    import ast
+    import vboot
+    import vtlengine.Exceptions as EX
+    from vtlengine.Exceptions.messages import centralised_messages as CAT
+    names = {"SemanticError", "RunTimeError", "DataLoadError", "InputValidationException"}
+    judged = skipped = 0
+    root_dir = os.path.join(vboot.REPO, "src", "vtlengine")
+    for root, _, files in os.walk(root_dir):
+        for f in sorted(files):
+            if not f.endswith(".py"):
+                continue
+            path = os.path.join(root, f)
+            try:
+                tree = ast.parse(open(path, encoding="utf-8").read())
+            except SyntaxError:
+                continue
+            for node in ast.walk(tree):
+                if not isinstance(node, ast.Call):
+                    continue
+                fn = node.func
+                cname = fn.id if isinstance(fn, ast.Name) else fn.attr if isinstance(fn, ast.Attribute) else None
+                if cname not in names:
+                    continue
+                kws = {k.arg: k.value for k in node.keywords if k.arg}
+                star = any(k.arg is None for k in node.keywords)
+                code_node = node.args[0] if node.args and cname != "InputValidationException" else kws.get("code")
+                site = f"{os.path.relpath(path, root_dir)}:{node.lineno}"
+                if not (isinstance(code_node, ast.Constant) and isinstance(code_node.value, str)) or star:
+                    skipped += 1
+                    continue
+                code = code_node.value
+                kwnames = [k for k in kws if k not in ("code", "comp_code", "message", "lino", "colno")]
+                cls = getattr(EX, cname)
+                judged += 1
+                b = f"site-signature/{cname}/{code}"
+                problem = None
+                if code not in CAT:
+                    problem = ("code-not-in-catalogue", f"{cname}({code!r}) at {site}: the code is not in the message catalogue")
+                else:
+                    missing = placeholders(CAT[code]["message"]) - set(kwnames)
+                    if missing:
+                        problem = ("placeholder-not-supplied", f"{cname}({code!r}) at {site}: message needs {sorted(missing)}, the call passes {sorted(kwnames)}")
+                if problem is None:
+                    try:
+                        obj = cls(code, **{k: "x" for k in kwnames}) if cname != "InputValidationException" else cls(code=code, **{k: "x" for k in kwnames})
+                        if not obj.args or not isinstance(obj.args[0], str) or not obj.args[0]:
+                            problem = ("message-not-rendered", f"{cname}({code!r}) at {site}: {obj.args!r}")
+                    except Exception as e:  # noqa: BLE001
+                        problem = ("constructor-failed", f"{cname}({code!r}) at {site} with keywords {sorted(kwnames)}: {type(e).__name__}: {e}")
+                if problem:
+                    emit({"v": "viol", "b": b, "mech": f"site-signature/{problem[0]}/{cname}/{code}", "what": problem[1], "case": {"source": "site signatures"}})
+                else:
+                    emit({"v": "held", "b": b})
+    emit({"v": "info", "k": "site_signatures", "val": {"judged": judged, "not_judged_computed_code_or_star_kwargs": skipped}})
 
 
 OPS2 = ["{a} + {b}", "{a} - {b}", "{a} * {b}", "{a} / {b}", "{a} || {b}", "{a} = {b}", "{a} <> {b}", "{a} < {b}", "{a} >= {b}", "{a} and {b}", "{a} or {b}",
@@ -230,6 +326,8 @@ def run_shard(spec, emit):
     tier = spec["tier"]
     bud = eng.Budget(spec.get("budget_s", 100 if tier == "quick" else 2400))
     mon = Monitor()
+    if spec["shard"] == 0:
+        site_signatures(emit)          # before the wrappers go on: the plain constructors are exercised
     mon.install()
     if spec["shard"] == 0:
         emit({"v": "info", "k": "raise_sites_scanned_textually", "val": scan_sites()})
